@@ -1,11 +1,8 @@
 #!/bin/bash
 # Re-runs every registered check (quick tier) on the clean /repo tree and reports; evidence files are rewritten by the checks.
+# At most $PAR checks at a time (default 6): several jobs need 5-25 GB each.
 cd /verif
 if [ -n "$(git -C /repo status --porcelain --untracked-files=no)" ]; then echo "/repo has uncommitted changes: refusing"; exit 9; fi
 ids=$(python3 -c "import json; print(' '.join(c['property_id'] for c in json.load(open('MANIFEST.json'))['checks']))")
-rc=0
-for id in $ids; do
-  ( bin/check $id --tier quick > /tmp/refresh_$id.log 2>&1; echo "$id exit=$?" ) &
-done
-wait
+echo $ids | tr ' ' '\n' | xargs -P ${PAR:-6} -I{} sh -c 'bin/check {} --tier quick > /tmp/refresh_{}.log 2>&1; echo "{} exit=$?"'
 for id in $ids; do tail -n 1 /tmp/refresh_$id.log; grep -h "VIOLATION\|UNDECIDED\|KNOWN-FINDING" /tmp/refresh_$id.log; done
